@@ -4,9 +4,10 @@ NodeTie — tie T1 for the navigation nodes: lemmas.
 import JPV.Gen.NodesGo
 import JPV.Lemmas.Refine
 import JPV.Lemmas.ValWf
+import JPV.Lemmas.SortKV
 namespace JPV
 namespace NodeTie
-open Impl NavNode Gen.NodesGo
+open Impl NavNode Gen.NodesGo ValWf SortKVL
 
 /-! ### receivers of the model's nodes -/
 
@@ -273,6 +274,1158 @@ theorem wildMap_eq (env : Env) (i : Info) (rest : List N) (root : Val) (m : GoMa
   · intro k st dl de
     simp only [wildRecv, mapNext_eq]
     exact record_eq _ dl de
+
+
+theorem wildList_eq (env : Env) (i : Info) (rest : List N) (root : Val) (l : GoList) (st : St) :
+    syntaxChildWildcardIdentifier_retrieveList (wildRecv env i rest) root l st =
+      (do
+        let acc ← loopAcc (fun (xi : Val × Nat) st => retrieve env rest i root xi.1 (some (l.loc ++ [.idx xi.2])) st)
+          l.xs.zipIdx (st, 0, none)
+        .ok (endGroup i acc)) := by
+  unfold syntaxChildWildcardIdentifier_retrieveList
+  dsimp only
+  rw [forRange_loopAcc (fun (ix : Int) st =>
+        match (if ix < 0 then none else l.xs[ix.toNat]?) with
+        | none => .error .indexOutOfRange
+        | some v => retrieve env rest i root v (some (l.loc ++ [.idx ix.toNat])) st)]
+  · have h := loopAcc_rangeLen l.xs (fun v n st => retrieve env rest i root v (some (l.loc ++ [.idx n])) st) (st, 0, none)
+    rw [h]
+    simp only [bind, Except.bind]
+    cases loopAcc _ l.xs.zipIdx (st, 0, none) with
+    | error p => rfl
+    | ok acc =>
+      obtain ⟨st', dl, de⟩ := acc
+      exact finish_eq i st' dl de
+  · intro ix st dl de
+    simp only [wildRecv, listNext_eq]
+    exact record_eq _ dl de
+
+/-- the object loop of `*` on a map whose keys are pairwise different, as the model writes it -/
+theorem wildMap_model (env : Env) (i : Info) (rest : List N) (root : Val) (kvs : List (String × Val))
+    (hnd : (kvs.map (·.1)).Nodup) (loc : Loc) (acc : Acc) :
+    loopAcc (fun (k : String) st =>
+        match Val.lookup k kvs with
+        | none => .ok (st, some (.member i))
+        | some v => retrieve env rest i root v (some (loc ++ [.key k])) st)
+      (getSortedKeys ⟨kvs, loc⟩) acc =
+    loopAcc (fun (kv : String × Val) st => retrieve env rest i root kv.2 (some (loc ++ [.key kv.1])) st)
+      (sortKV kvs) acc := by
+  rw [getSortedKeys, loopAcc_map]
+  apply loopAcc_congr
+  intro kv hkv st
+  have hmem : kv ∈ kvs := (sortKV_perm kvs).mem_iff.mp hkv
+  simp only [lookup_of_mem kvs hnd kv hmem]
+
+theorem wild_eq (env : Env) (i : Info) (rest : List N) (prev : Info) (root cur : Val) (aloc : Option Loc) (st : St)
+    (hk : keysNodup cur) :
+    retrieve env (.wild i :: rest) prev root cur aloc st =
+      syntaxChildWildcardIdentifier_retrieve (wildRecv env i rest) root ⟨cur, aloc⟩ st := by
+  cases cur with
+  | obj kvs =>
+    simp only [retrieve, syntaxChildWildcardIdentifier_retrieve, typeSwitch, wildMap_eq]
+    rw [wildMap_model env i rest root kvs hk]
+    rfl
+  | arr xs =>
+    simp only [retrieve, syntaxChildWildcardIdentifier_retrieve, typeSwitch, wildList_eq]
+    rfl
+  | _ => simp only [retrieve]; rfl
+
+/-! ### `.name`, `$`, `@` -/
+
+def singleRecv (env : Env) (i : Info) (k : String) (rest : List N) : SingleRecv :=
+  { basic := basicRecv env i rest, identifier := k }
+
+theorem child_eq (env : Env) (i : Info) (k : String) (rest : List N) (prev : Info) (root cur : Val)
+    (aloc : Option Loc) (st : St) :
+    retrieve env (.child i k :: rest) prev root cur aloc st =
+      syntaxChildSingleIdentifier_retrieve (singleRecv env i k rest) root ⟨cur, aloc⟩ st := by
+  cases cur with
+  | obj kvs =>
+    simp only [retrieve, syntaxChildSingleIdentifier_retrieve, asMap, singleRecv, mapNext_eq]
+    rfl
+  | _ => simp only [retrieve]; rfl
+
+def rootRecv (env : Env) (i : Info) (rest : List N) : RootRecv := { basic := basicRecv env i rest }
+
+theorem root_eq (env : Env) (i : Info) (rest : List N) (prev : Info) (root cur : Val) (aloc : Option Loc) (st : St) :
+    retrieve env (.root i :: rest) prev root cur aloc st =
+      syntaxRootIdentifier_retrieve (rootRecv env i rest) root ⟨cur, aloc⟩ st := by
+  simp only [retrieve, syntaxRootIdentifier_retrieve, rootRecv, anyNext_eq]
+
+theorem cur_eq (env : Env) (i : Info) (rest : List N) (prev : Info) (root cur : Val) (aloc : Option Loc) (st : St) :
+    retrieve env (.cur i :: rest) prev root cur aloc st =
+      syntaxCurrentRootIdentifier_retrieve (rootRecv env i rest) root ⟨cur, aloc⟩ st := by
+  simp only [retrieve, syntaxCurrentRootIdentifier_retrieve, rootRecv, anyNext_eq]
+
+
+/-! ### `[…]` with subscripts -/
+
+def unionRecv (env : Env) (i : Info) (subs : List SubI) (rest : List N) : UnionRecv :=
+  { basic := basicRecv env i rest, subscripts := subs.map (fun s n => subIndexes s n.toNat) }
+
+theorem repack_eq (x : M Acc) :
+    (do let (st, dl, de) ← x; pure (st, dl, de) : M Acc) = x := by
+  cases x with
+  | error p => rfl
+  | ok r => rfl
+
+theorem union_eq (env : Env) (i : Info) (subs : List SubI) (rest : List N) (prev : Info) (root cur : Val)
+    (aloc : Option Loc) (st : St) :
+    retrieve env (.union i subs :: rest) prev root cur aloc st =
+      syntaxUnionQualifier_retrieve (unionRecv env i subs rest) root ⟨cur, aloc⟩ st := by
+  cases cur with
+  | arr xs =>
+    simp only [retrieve, syntaxUnionQualifier_retrieve, asList]
+    rw [forRange_congr _ (fun subscript acc => forRange (subscript (goLen xs)) acc (fun index (acc : Acc) =>
+        stepAcc (syntaxBasicNode_retrieveListNext (unionRecv env i subs rest).basic root ⟨xs, aloc.getD []⟩ index acc.1) acc.2.1 acc.2.2))]
+    · rw [forRange_flatMap, forRange_loopAcc (fun (ix : Int) st =>
+        match (if ix < 0 then none else xs[ix.toNat]?) with
+        | none => .error .indexOutOfRange
+        | some v => retrieve env rest i root v (ext aloc (.idx ix.toNat)) st)]
+      · have hidx : List.flatMap (fun subscript => subscript (goLen xs)) (unionRecv env i subs rest).subscripts =
+            List.flatMap (fun s => subIndexes s xs.length) subs := by
+          simp only [unionRecv, List.flatMap_map, goLen, Int.toNat_natCast]
+        rw [hidx]
+        simp only [bind, Except.bind]
+        cases loopAcc _ _ (st, 0, none) with
+        | error p => rfl
+        | ok acc =>
+          obtain ⟨st', dl, de⟩ := acc
+          exact (finish_eq i st' dl de).symm
+      · intro ix st dl de
+        simp only [unionRecv, listNext_eq]
+        rfl
+    · intro sub _ acc
+      obtain ⟨st, dl, de⟩ := acc
+      dsimp only
+      rw [forRange_congr _ (fun index (acc : Acc) =>
+        stepAcc (syntaxBasicNode_retrieveListNext (unionRecv env i subs rest).basic root ⟨xs, aloc.getD []⟩ index acc.1) acc.2.1 acc.2.2)]
+      · exact repack_eq _
+      · intro ix _ acc
+        obtain ⟨st, dl, de⟩ := acc
+        exact record_eq _ dl de
+  | _ => simp only [retrieve]; rfl
+
+
+/-! ### `['a','b',*]` -/
+
+theorem forRange_map {α β σ : Type} (g : β → α) (body : α → σ → M σ) :
+    ∀ (xs : List β) (s : σ), forRange (xs.map g) s body = forRange xs s (fun b => body (g b))
+  | [], _ => rfl
+  | x :: xs, s => by
+    simp only [List.map_cons, forRange]
+    cases body (g x) s with
+    | error p => rfl
+    | ok s' => exact forRange_map g body xs s'
+
+/-- an inner identifier of a multi-name node as a `syntaxNode`: the generated methods again -/
+def idRef (env : Env) (rest : List N) : MId → NodeRef
+  | .key ii k => { retrieve := syntaxChildSingleIdentifier_retrieve (singleRecv env ii k rest), asSingle := some k }
+  | .wild ii => { retrieve := syntaxChildWildcardIdentifier_retrieve (wildRecv env ii rest), asSingle := none }
+
+/-- the union twin of an all-wildcard multi-name node: one `*` subscript per name -/
+def twinRef (env : Env) (ids : List MId) (rest : List N) : Option Info → NodeRef
+  | some ti => { retrieve := syntaxUnionQualifier_retrieve (unionRecv env ti (ids.map (fun _ => SubI.wild)) rest),
+                 asSingle := none }
+  | none => { retrieve := fun _ _ _ => .error nilDeref, asSingle := none }
+
+def multiRecv (env : Env) (i : Info) (ids : List MId) (twin : Option Info) (rest : List N) : MultiRecv :=
+  { basic := basicRecv env i rest, identifiers := ids.map (idRef env rest), isAllWildcard := twin.isSome,
+    unionQualifier := twinRef env ids rest twin }
+
+/-- what one name of a multi-name node does on an object -/
+def multiBranch (env : Env) (rest : List N) (root : Val) (kvs : List (String × Val)) (aloc : Option Loc) :
+    MId → St → M (St × Option RtErr) :=
+  fun id st =>
+    match id with
+    | .key ii k =>
+      (match Val.lookup k kvs with
+       | none => .ok (st, none)
+       | some v => retrieve env rest ii root v (ext aloc (.key k)) st)
+    | .wild ii => do
+      let acc ← loopAcc (fun (kv : String × Val) st => retrieve env rest ii root kv.2 (ext aloc (.key kv.1)) st)
+        (sortKV kvs) (st, 0, none)
+      .ok (endGroup ii acc)
+
+theorem multiMap_eq (env : Env) (i : Info) (ids : List MId) (twin : Option Info) (rest : List N) (root : Val)
+    (kvs : List (String × Val)) (hnd : (kvs.map (·.1)).Nodup) (aloc : Option Loc) (st : St) :
+    syntaxChildMultiIdentifier_retrieveMap (multiRecv env i ids twin rest) root ⟨kvs, aloc.getD []⟩ st =
+      (do
+        let acc ← loopAcc (multiBranch env rest root kvs aloc) ids (st, 0, none)
+        .ok (endGroup i acc)) := by
+  unfold syntaxChildMultiIdentifier_retrieveMap
+  dsimp only
+  simp only [multiRecv, forRange_map]
+  rw [forRange_loopAcc (multiBranch env rest root kvs aloc)]
+  · simp only [bind, Except.bind]
+    cases loopAcc _ ids (st, 0, none) with
+    | error p => rfl
+    | ok acc =>
+      obtain ⟨st', dl, de⟩ := acc
+      exact finish_eq i st' dl de
+  · intro id st dl de
+    cases id with
+    | key ii k =>
+      simp only [idRef, mapIndex, multiBranch]
+      cases h : Val.lookup k kvs with
+      | none => rfl
+      | some v =>
+        dsimp only
+        have hc := child_eq env ii k rest ii root (.obj kvs) (some (aloc.getD [])) st
+        simp only [GoVal.ofMap, ← hc, retrieve, h]
+        exact record_eq _ dl de
+    | wild ii =>
+      simp only [idRef, multiBranch]
+      have hw := wild_eq env ii rest ii root (.obj kvs) (some (aloc.getD [])) st hnd
+      simp only [GoVal.ofMap, ← hw, retrieve]
+      exact record_eq _ dl de
+
+theorem multiTwin_model (env : Env) (ti : Info) (ids : List MId) (rest : List N) (root : Val) (xs : List Val)
+    (aloc : Option Loc) (acc : Acc) :
+    loopAcc (fun (ix : Int) st =>
+        match (if ix < 0 then none else xs[ix.toNat]?) with
+        | none => .error .indexOutOfRange
+        | some v => retrieve env rest ti root v (ext aloc (.idx ix.toNat)) st)
+      ((ids.map (fun _ => SubI.wild)).flatMap (fun s => subIndexes s xs.length)) acc =
+    loopAcc (fun (xi : Val × Nat) st => retrieve env rest ti root xi.1 (ext aloc (.idx xi.2)) st)
+      (ids.flatMap (fun _ => xs.zipIdx)) acc := by
+  have hl : (ids.map (fun _ => SubI.wild)).flatMap (fun s => subIndexes s xs.length) =
+      (ids.flatMap (fun _ => xs.zipIdx)).map (fun xi => (xi.2 : Int)) := by
+    rw [List.flatMap_map, List.map_flatMap]
+    congr 1
+    funext _
+    exact rangeLen_eq xs
+  rw [hl, loopAcc_map]
+  apply loopAcc_congr
+  intro xi hxi st
+  obtain ⟨_, _, hmem⟩ := List.mem_flatMap.mp hxi
+  have h := List.mem_zipIdx_iff_getElem?.mp hmem
+  have hneg : ¬ ((xi.2 : Int) < 0) := by omega
+  simp only [hneg, if_false, Int.toNat_natCast, h]
+
+theorem multi_eq (env : Env) (i : Info) (ids : List MId) (twin : Option Info) (rest : List N) (prev : Info)
+    (root cur : Val) (aloc : Option Loc) (st : St) (hk : keysNodup cur) :
+    retrieve env (.multi i ids twin :: rest) prev root cur aloc st =
+      syntaxChildMultiIdentifier_retrieve (multiRecv env i ids twin rest) root ⟨cur, aloc⟩ st := by
+  have hobj : ∀ kvs, cur = .obj kvs →
+      syntaxChildMultiIdentifier_retrieve (multiRecv env i ids twin rest) root ⟨cur, aloc⟩ st =
+      (do
+        let acc ← loopAcc (multiBranch env rest root kvs aloc) ids (st, 0, none)
+        .ok (endGroup i acc)) := by
+    intro kvs hc
+    subst hc
+    unfold syntaxChildMultiIdentifier_retrieve
+    simp only [asList, asMap, multiMap_eq env i ids twin rest root kvs hk]
+    cases (multiRecv env i ids twin rest).isAllWildcard <;> rfl
+  cases twin with
+  | none =>
+    cases cur with
+    | obj kvs =>
+      rw [hobj kvs rfl]
+      simp only [retrieve]
+      rfl
+    | _ => simp only [retrieve]; rfl
+  | some ti =>
+    cases cur with
+    | obj kvs =>
+      rw [hobj kvs rfl]
+      simp only [retrieve]
+      rfl
+    | arr xs =>
+      have hu := union_eq env ti (ids.map (fun _ => SubI.wild)) rest prev root (.arr xs) aloc st
+      have hm := multiTwin_model env ti ids rest root xs aloc (st, 0, none)
+      have hgoal : syntaxChildMultiIdentifier_retrieve (multiRecv env i ids (some ti) rest) root ⟨.arr xs, aloc⟩ st =
+          syntaxUnionQualifier_retrieve (unionRecv env ti (ids.map (fun _ => SubI.wild)) rest) root ⟨.arr xs, aloc⟩ st := rfl
+      rw [hgoal, ← hu]
+      simp only [retrieve]
+      exact (congrArg (fun x => x >>= fun acc => (Except.ok (endGroup ti acc) : M (St × Option RtErr))) hm).symm
+    | _ => simp only [retrieve]; rfl
+
+
+/-! ### `[?(…)]` -/
+
+
+theorem forRange_loopAcc_mem {α : Type} (f : α → St → M (St × Option RtErr)) (body : α → Acc → M Acc) :
+    ∀ (xs : List α) (acc : Acc), (∀ x ∈ xs, ∀ st dl de, body x (st, dl, de) = stepAcc (f x st) dl de) →
+      forRange xs acc body = loopAcc f xs acc
+  | [], acc, _ => rfl
+  | x :: xs, (st, dl, de), h => by
+    simp only [forRange, loopAcc, h x List.mem_cons_self]
+    cases stepAcc (f x st) dl de with
+    | error p => rfl
+    | ok acc' => exact forRange_loopAcc_mem f body xs acc' (fun y hy => h y (List.mem_cons_of_mem _ hy))
+
+/-- a loop over the positions of `zs` whose branch at position `i` is `H zs[i]` is the loop over `zs` -/
+theorem loopAcc_index {γ : Type} (zs : List γ) (F : Int → St → M (St × Option RtErr)) (H : γ → St → M (St × Option RtErr))
+    (h : ∀ (i : Nat) (hi : i < zs.length) (st : St), F (i : Int) st = H zs[i] st) (acc : Acc) :
+    loopAcc F (rangeLen zs) acc = loopAcc H zs acc := by
+  rw [rangeLen_eq, loopAcc_map]
+  have h1 : loopAcc (fun (zi : γ × Nat) => F (zi.2 : Int)) zs.zipIdx acc = loopAcc (fun (zi : γ × Nat) => H zi.1) zs.zipIdx acc := by
+    apply loopAcc_congr
+    intro zi hzi st
+    have hg := List.mem_zipIdx_iff_getElem?.mp hzi
+    obtain ⟨hlt, heq⟩ := List.getElem?_eq_some_iff.mp hg
+    rw [h zi.2 hlt st, heq]
+  rw [h1, ← loopAcc_map (fun (zi : γ × Nat) => zi.1) H, List.zipIdx_map_fst]
+
+theorem rangeLen_congr {α β : Type} (xs : List α) (ys : List β) (h : xs.length = ys.length) : rangeLen xs = rangeLen ys := by
+  simp only [rangeLen, h]
+
+
+
+theorem sliceIndex_append_mid {α : Type} (pre : List α) (k : α) (post : List α) :
+    sliceIndex (pre ++ k :: post) (pre.length : Int) = .ok k := by
+  have hneg : ¬ ((pre.length : Int) < 0) := by omega
+  simp [sliceIndex, hneg]
+
+theorem sliceSet_append_mid {α : Type} (done : List α) (t0 : α) (tail : List α) (a : α) :
+    sliceSet (done ++ t0 :: tail) (done.length : Int) a = .ok (done ++ a :: tail) := by
+  have h1 : ¬ ((done.length : Int) < 0) := by omega
+  have h2 : ¬ ((done.length : Int) ≥ ((done ++ t0 :: tail).length : Int)) := by
+    simp only [List.length_append, List.length_cons]; omega
+  simp only [sliceSet, h1, h2, Bool.or_self, decide_false, Bool.false_eq_true, if_false, Int.toNat_natCast, List.set_append_right _ _ (Nat.le_refl _), Nat.sub_self, List.set_cons_zero]
+
+theorem fill_step {α β : Type} (g : α → β) (pre : List α) (k : α) (ks : List α) (done : List β) (t0 : β) (tail : List β)
+    (hd : done.length = pre.length) :
+    (do
+      let t_1 ← sliceIndex (pre ++ k :: ks) (pre.length : Int)
+      let valueList ← sliceSet (done ++ t0 :: tail) (pre.length : Int) (g t_1)
+      pure valueList : M (List β)) = .ok (done ++ g k :: tail) := by
+  rw [sliceIndex_append_mid, ← hd]
+  show sliceSet (done ++ t0 :: tail) (done.length : Int) (g k) = _
+  rw [sliceSet_append_mid]
+
+/-- the loop `for index := range keys { list[index] = g(keys[index]) }` on a list of the right length -/
+theorem fill_loop {α β : Type} (g : α → β) : ∀ (ks pre : List α) (done tail : List β),
+    done.length = pre.length → tail.length = ks.length →
+    forRange ((List.range' pre.length ks.length).map (fun (i : Nat) => (i : Int))) (done ++ tail)
+      (fun index valueList => do
+        let t_1 ← sliceIndex (pre ++ ks) index
+        let valueList ← sliceSet valueList index (g t_1)
+        pure valueList) = .ok (done ++ ks.map g)
+  | [], pre, done, tail, _, ht => by
+    cases tail with
+    | nil => rfl
+    | cons a b => simp at ht
+  | k :: ks, pre, done, tail, hd, ht => by
+    cases tail with
+    | nil => simp at ht
+    | cons t0 tail' =>
+      have hs := fill_step g pre k ks done t0 tail' hd
+      have ih := fill_loop g ks (pre ++ [k]) (done ++ [g k]) tail' (by simp [hd]) (by simpa using ht)
+      simp only [List.length_append, List.length_cons, List.length_nil, List.append_assoc, List.cons_append,
+        List.nil_append, Nat.zero_add] at ih
+      simp only [List.length_cons, List.range'_succ, List.map_cons, forRange, hs]
+      exact ih
+
+theorem fill_loop' {α β : Type} (g : α → β) (ks : List α) (init : List β) (h : init.length = ks.length) :
+    forRange (rangeLen ks) init
+      (fun index valueList => do
+        let t_1 ← sliceIndex ks index
+        let valueList ← sliceSet valueList index (g t_1)
+        pure valueList) = .ok (ks.map g) := by
+  have := fill_loop g ks [] [] init rfl h
+  simpa [rangeLen, List.range_eq_range'] using this
+
+
+
+theorem cellIsEmpty_at (vl : VL) (i : Nat) (hi : i < vl.cells.length) :
+    cellIsEmpty vl (i : Int) = .ok vl.cells[i].isEmpty := by
+  have hneg : ¬ ((i : Int) < 0) := by omega
+  simp [cellIsEmpty, sliceIndex, hneg, hi, bind, Except.bind]
+
+/-- the selection loop of a filter: every member when the query answered with one verdict for
+    all, else the members whose cell is not the marker -/
+theorem filter_loop {β : Type} (es : List β) (vl : VL) (isEach : Bool)
+    (hlen : isEach = true → vl.cells.length = es.length)
+    (b : Int → St → M (St × Option RtErr)) (h : β → St → M (St × Option RtErr))
+    (hb : ∀ (i : Nat) (hi : i < es.length) (st : St), b (i : Int) st = h es[i] st)
+    (body : Int → Acc → M Acc)
+    (hbody : ∀ ix st dl de, body ix (st, dl, de) =
+      (if isEach then do
+          let t_3 ← cellIsEmpty vl ix
+          if t_3 then pure (st, dl, de) else stepAcc (b ix st) dl de
+        else stepAcc (b ix st) dl de))
+    (acc : Acc) :
+    forRange (rangeLen es) acc body =
+      loopAcc h (if isEach then ((es.zip vl.cells).filter (fun ec => !ec.2.isEmpty)).map (·.1) else es) acc := by
+  cases isEach with
+  | false =>
+    simp only [Bool.false_eq_true, if_false] at hbody ⊢
+    rw [forRange_loopAcc b body hbody]
+    exact loopAcc_index es b h hb acc
+  | true =>
+    simp only [if_true] at hbody ⊢
+    have hl := hlen rfl
+    rw [forRange_loopAcc (fun ix st =>
+        match cellIsEmpty vl ix with
+        | .ok true => .ok (st, none)
+        | .ok false => b ix st
+        | .error p => .error p)]
+    · rw [rangeLen_congr es (es.zip vl.cells) (by simp [hl]),
+        loopAcc_index (es.zip vl.cells) _ (fun ec st => if !ec.2.isEmpty then h ec.1 st else .ok (st, none)),
+        loopAcc_map, loopAcc_filter]
+      intro i hi st
+      have hi1 : i < es.length := by simp at hi; omega
+      have hi2 : i < vl.cells.length := by simp at hi; omega
+      rw [cellIsEmpty_at vl i hi2, List.getElem_zip]
+      cases hc : vl.cells[i].isEmpty with
+      | true => simp
+      | false => simp [hb i hi1 st]
+    · intro ix st dl de
+      rw [hbody]
+      cases cellIsEmpty vl ix with
+      | error p => rfl
+      | ok t => cases t <;> rfl
+
+theorem goLen_beq {α β : Type} (xs : List α) (ys : List β) : (goLen xs == goLen ys) = (xs.length == ys.length) := by
+  simp only [goLen]
+  cases h : xs.length == ys.length with
+  | true =>
+    have : xs.length = ys.length := by simpa using h
+    simp [this]
+  | false =>
+    have : xs.length ≠ ys.length := by simpa using h
+    simp
+    omega
+
+/-- a filter after its query has answered `vl` (never an empty list): the early return on a
+    whole-list "no", the selection loop, the common tail -/
+theorem filter_tail {β : Type} (i : Info) (es : List β) (vl : VL) (st : St) (hne : vl.cells ≠ [])
+    (b : Int → St → M (St × Option RtErr)) (h : β → St → M (St × Option RtErr))
+    (hb : ∀ (i : Nat) (hi : i < es.length) (st : St), b (i : Int) st = h es[i] st)
+    (body : Int → Acc → M Acc)
+    (hbody : ∀ ix st dl de, body ix (st, dl, de) =
+      (if (goLen vl.cells == goLen es) then do
+          let t_3 ← cellIsEmpty vl ix
+          if t_3 then pure (st, dl, de) else stepAcc (b ix st) dl de
+        else stepAcc (b ix st) dl de))
+    (fin : Acc → M (St × Option RtErr)) (hfin : ∀ st dl de, fin (st, dl, de) = .ok (endGroup i (st, dl, de))) :
+    (if !(goLen vl.cells == goLen es) then do
+       let t_4 ← cellIsEmpty vl 0
+       if t_4 then .ok (st, some (RtErr.member i)) else (forRange (rangeLen es) (st, 0, none) body >>= fin)
+     else (forRange (rangeLen es) (st, 0, none) body >>= fin)) =
+    (match vl.cells with
+     | [] => .error .indexOutOfRange
+     | c0 :: _ =>
+       if !(vl.cells.length == es.length) && c0.isEmpty then .ok (st, some (.member i)) else do
+         let sel := if (vl.cells.length == es.length) then
+             ((es.zip vl.cells).filter (fun ec => !ec.2.isEmpty)).map (·.1) else es
+         let acc ← loopAcc h sel (st, 0, none)
+         .ok (endGroup i acc)) := by
+  rw [filter_loop es vl (goLen vl.cells == goLen es) (fun he => by rw [goLen_beq] at he; simpa using he) b h hb body hbody]
+  rw [goLen_beq]
+  obtain ⟨c0, cs, hc⟩ : ∃ c0 cs, vl.cells = c0 :: cs := by
+    cases hc : vl.cells with
+    | nil => exact absurd hc hne
+    | cons c0 cs => exact ⟨c0, cs, rfl⟩
+  have h0 : cellIsEmpty vl 0 = .ok c0.isEmpty := by
+    have := cellIsEmpty_at vl 0 (by rw [hc]; simp)
+    simpa [hc] using this
+  generalize (vl.cells.length == es.length) = isEach
+  generalize ((es.zip vl.cells).filter (fun ec => !ec.2.isEmpty)).map (·.1) = selF
+  have hrest : ∀ sel, (loopAcc h sel (st, 0, none) >>= fin) =
+      (do
+         let acc ← loopAcc h sel (st, 0, none)
+         .ok (endGroup i acc)) := by
+    intro sel
+    simp only [bind, Except.bind]
+    cases loopAcc h sel (st, 0, none) with
+    | error p => rfl
+    | ok acc =>
+      obtain ⟨st', dl, de⟩ := acc
+      exact hfin st' dl de
+  rw [hc]
+  cases isEach with
+  | true => simpa using hrest selF
+  | false =>
+    simp only [Bool.not_false, if_true, h0, Bool.true_and]
+    cases c0.isEmpty with
+    | true => rfl
+    | false => exact hrest es
+
+
+/-- what a filter does once its query has answered `vl`, over the members `es` with branch `h` -/
+def filterSel {β : Type} (i : Info) (es : List β) (h : β → St → M (St × Option RtErr)) (vl : VL) (st : St) :
+    M (St × Option RtErr) :=
+  match vl.cells with
+  | [] => .error .indexOutOfRange
+  | c0 :: _ =>
+    if !(vl.cells.length == es.length) && c0.isEmpty then .ok (st, some (.member i)) else do
+      let sel := if (vl.cells.length == es.length) then
+          ((es.zip vl.cells).filter (fun ec => !ec.2.isEmpty)).map (·.1) else es
+      let acc ← loopAcc h sel (st, 0, none)
+      .ok (endGroup i acc)
+
+theorem zip_sel_map {β γ : Type} (g : β → γ) : ∀ (es : List β) (cells : List Cell),
+    (((es.map g).zip cells).filter (fun ec => !ec.2.isEmpty)).map (·.1) =
+      (((es.zip cells).filter (fun ec => !ec.2.isEmpty)).map (·.1)).map g
+  | [], _ => rfl
+  | _ :: _, [] => rfl
+  | e :: es, c :: cs => by
+    simp only [List.map_cons, List.zip_cons_cons, List.filter_cons]
+    cases c.isEmpty <;> simp [zip_sel_map g es cs]
+
+theorem filterSel_map {β γ : Type} (i : Info) (g : β → γ) (es : List β) (h : γ → St → M (St × Option RtErr))
+    (vl : VL) (st : St) : filterSel i (es.map g) h vl st = filterSel i es (fun b => h (g b)) vl st := by
+  unfold filterSel
+  simp only [List.length_map, zip_sel_map]
+  cases vl.cells with
+  | nil => rfl
+  | cons c0 cs =>
+    dsimp only
+    cases ((c0 :: cs).length == es.length) with
+    | true => simp only [if_true, loopAcc_map]
+    | false => simp only [Bool.false_eq_true, if_false, loopAcc_map]
+
+def filterRecv (env : Env) (i : Info) (q : Q) (rest : List N) : FilterRecv :=
+  { basic := basicRecv env i rest, query := fun root ms st => computeQ env q root ms st }
+
+theorem filterList_eq (env : Env) (i : Info) (q : Q) (rest : List N) (root : Val) (l : GoList) (st : St)
+    (hq : ∀ vl st1, computeQ env q root l.xs st = .ok (vl, st1) → vl.cells ≠ []) :
+    syntaxFilterQualifier_retrieveList (filterRecv env i q rest) root l st =
+      (do
+        let (vl, st1) ← computeQ env q root l.xs st
+        filterSel i l.xs.zipIdx (fun xi st => retrieve env rest i root xi.1 (some (l.loc ++ [.idx xi.2])) st) vl st1) := by
+  unfold syntaxFilterQualifier_retrieveList
+  simp only [filterRecv]
+  cases hc : computeQ env q root l.xs st with
+  | error p => rfl
+  | ok r =>
+    obtain ⟨vl, st1⟩ := r
+    have e1 : rangeLen l.xs = rangeLen l.xs.zipIdx := rangeLen_congr _ _ (by simp)
+    have e2 : goLen l.xs = goLen l.xs.zipIdx := by simp [goLen]
+    rw [e1, e2]
+    refine filter_tail i l.xs.zipIdx vl st1 (hq vl st1 hc)
+      (fun ix st => syntaxBasicNode_retrieveListNext (basicRecv env i rest) root l ix st)
+      (fun xi st => retrieve env rest i root xi.1 (some (l.loc ++ [.idx xi.2])) st) ?hb _ ?hbody _ ?hfin
+    case hb =>
+      intro n hn st
+      have hn' : n < l.xs.length := by simpa using hn
+      have hneg : ¬ ((n : Int) < 0) := by omega
+      simp only [listNext_eq, hneg, if_false, Int.toNat_natCast, List.getElem?_eq_getElem hn', List.getElem_zipIdx]
+      simp
+    case hbody =>
+      intro ix st dl de
+      dsimp only
+      cases (goLen vl.cells == goLen l.xs.zipIdx) with
+      | false => exact record_eq _ dl de
+      | true =>
+        simp only [if_true]
+        cases cellIsEmpty vl ix with
+        | error p => rfl
+        | ok t =>
+          cases t with
+          | true => rfl
+          | false => exact record_eq _ dl de
+    case hfin =>
+      intro st dl de
+      exact finish_eq i st dl de
+
+
+
+theorem ok_bind {α β : Type} (a : α) (f : α → M β) : ((Except.ok a : M α) >>= f) = f a := rfl
+
+theorem sortKV_vals (kvs : List (String × Val)) (hnd : (kvs.map (·.1)).Nodup) (loc : Loc) :
+    (((sortKV kvs).map (·.1)).map (mapGet ⟨kvs, loc⟩)).map GoVal.v = (sortKV kvs).map (·.2) := by
+  rw [List.map_map, List.map_map]
+  apply List.map_congr_left
+  intro kv hkv
+  have hmem : kv ∈ kvs := (sortKV_perm kvs).mem_iff.mp hkv
+  simp [mapGet, lookup_of_mem kvs hnd kv hmem]
+
+theorem filterMap_eq (env : Env) (i : Info) (q : Q) (rest : List N) (root : Val) (m : GoMap) (st : St)
+    (hnd : (m.kvs.map (·.1)).Nodup)
+    (hq : ∀ vl st1, computeQ env q root ((sortKV m.kvs).map (·.2)) st = .ok (vl, st1) → vl.cells ≠ []) :
+    syntaxFilterQualifier_retrieveMap (filterRecv env i q rest) root m st =
+      (do
+        let (vl, st1) ← computeQ env q root ((sortKV m.kvs).map (·.2)) st
+        filterSel i (sortKV m.kvs) (fun kv st => retrieve env rest i root kv.2 (some (m.loc ++ [.key kv.1])) st) vl st1) := by
+  unfold syntaxFilterQualifier_retrieveMap
+  simp only [filterRecv]
+  have hfill := fill_loop' (mapGet m) (getSortedKeys m) (makeGoVals (goLen (getSortedKeys m)))
+    (by simp [makeGoVals, goLen])
+  rw [hfill]
+  have hv : ((getSortedKeys m).map (mapGet m)).map GoVal.v = (sortKV m.kvs).map (·.2) := sortKV_vals m.kvs hnd m.loc
+  simp only [ok_bind, hv]
+  cases hc : computeQ env q root ((sortKV m.kvs).map (·.2)) st with
+  | error p => rfl
+  | ok r =>
+    obtain ⟨vl, st1⟩ := r
+    have e1 : rangeLen (getSortedKeys m) = rangeLen (sortKV m.kvs) := rangeLen_congr _ _ (by simp [getSortedKeys])
+    have e2 : goLen m.kvs = goLen (sortKV m.kvs) := by simp [goLen, (sortKV_perm m.kvs).length_eq]
+    simp only [ok_bind]
+    rw [e1, e2]
+    refine filter_tail i (sortKV m.kvs) vl st1 (hq vl st1 hc)
+      (fun ix st => sliceIndex (getSortedKeys m) ix >>= fun t => syntaxBasicNode_retrieveMapNext (basicRecv env i rest) root m t st)
+      (fun kv st => retrieve env rest i root kv.2 (some (m.loc ++ [.key kv.1])) st) ?hb _ ?hbody _ ?hfin
+    case hb =>
+      intro n hn st
+      have hneg : ¬ ((n : Int) < 0) := by omega
+      have hmem : (sortKV m.kvs)[n] ∈ m.kvs := (sortKV_perm m.kvs).mem_iff.mp (List.getElem_mem hn)
+      simp only [sliceIndex, getSortedKeys, hneg, if_false, Int.toNat_natCast, List.getElem?_map,
+        List.getElem?_eq_getElem hn, Option.map_some, ok_bind, mapNext_eq, lookup_of_mem m.kvs hnd _ hmem]
+    case hbody =>
+      intro ix st dl de
+      dsimp only
+      have hstep : ∀ (r : M String), (do
+            let t_2 ← r
+            let (st, err) ← syntaxBasicNode_retrieveMapNext (basicRecv env i rest) root m t_2 st
+            let (dl, de) ← (match err with
+              | none => pure (dl, de)
+              | some err => do
+                let (dl, de) ← (if goLen st.out == 0 then do
+                    let (dl, de) := addDeepestError err dl de
+                    pure (dl, de)
+                  else pure (dl, de))
+                pure (dl, de))
+            pure (st, dl, de) : M Acc) =
+          stepAcc (r >>= fun t => syntaxBasicNode_retrieveMapNext (basicRecv env i rest) root m t st) dl de := by
+        intro r
+        cases r with
+        | error p => rfl
+        | ok t => exact record_eq _ dl de
+      cases (goLen vl.cells == goLen (sortKV m.kvs)) with
+      | false => exact hstep _
+      | true =>
+        simp only [if_true]
+        cases cellIsEmpty vl ix with
+        | error p => rfl
+        | ok t =>
+          cases t with
+          | true => rfl
+          | false => exact hstep _
+    case hfin =>
+      intro st dl de
+      exact finish_eq i st dl de
+
+
+
+/-- the `.filter` equation of the model, with the part after the query named -/
+theorem filter_model (env : Env) (i : Info) (q : Q) (rest : List N) (prev : Info) (root cur : Val)
+    (aloc : Option Loc) (st : St) (hc : cur.isContainer = true) :
+    retrieve env (.filter i q :: rest) prev root cur aloc st =
+      (do
+        let (vl, st1) ← computeQ env q root ((entriesSeg cur).map (·.2)) st
+        filterSel i (entriesSeg cur) (fun sv st => retrieve env rest i root sv.2 (ext aloc sv.1) st) vl st1) := by
+  simp only [retrieve, hc, if_true, filterSel, List.length_map]
+  rfl
+
+theorem filter_eq (env : Env) (i : Info) (q : Q) (rest : List N) (prev : Info) (root cur : Val)
+    (aloc : Option Loc) (st : St) (hk : keysNodup cur)
+    (hq : ∀ ms vl st1, computeQ env q root ms st = .ok (vl, st1) → vl.cells ≠ []) :
+    retrieve env (.filter i q :: rest) prev root cur aloc st =
+      syntaxFilterQualifier_retrieve (filterRecv env i q rest) root ⟨cur, aloc⟩ st := by
+  cases cur with
+  | obj kvs =>
+    rw [filter_model _ _ _ _ _ _ _ _ _ rfl]
+    simp only [syntaxFilterQualifier_retrieve, typeSwitch]
+    rw [filterMap_eq env i q rest root ⟨kvs, aloc.getD []⟩ st hk (hq _)]
+    simp only [entriesSeg, List.map_map, filterSel_map]
+    rfl
+  | arr xs =>
+    rw [filter_model _ _ _ _ _ _ _ _ _ rfl]
+    simp only [syntaxFilterQualifier_retrieve, typeSwitch]
+    rw [filterList_eq env i q rest root ⟨xs, aloc.getD []⟩ st (hq _)]
+    simp only [entriesSeg, List.map_map, filterSel_map]
+    have : (List.map ((fun x => x.2) ∘ fun (xi : Val × Nat) => (Seg.idx xi.2, xi.1)) xs.zipIdx) = xs := by
+      have h1 : ((fun (x : Seg × Val) => x.2) ∘ fun (xi : Val × Nat) => (Seg.idx xi.2, xi.1)) = Prod.fst := rfl
+      rw [h1, List.zipIdx_map_fst]
+    rw [this]
+    rfl
+  | _ => simp only [retrieve]; rfl
+
+
+
+/-! ### `..` : the explicit stack against the pre-order enumeration -/
+
+/-- the members of a container at `loc` with their handles, in the order the model lists them -/
+def membersG (v : Val) (loc : Loc) : List GoVal :=
+  match v with
+  | .obj kvs => kvs.map (fun kv => ⟨kv.2, some (loc ++ [.key kv.1])⟩)
+  | .arr xs => xs.zipIdx.map (fun xi => ⟨xi.1, some (loc ++ [.idx xi.2])⟩)
+  | _ => []
+
+/-- the containers at and below a stack element, pre-order -/
+def below (g : GoVal) : List (Val × Loc) := containersLoc g.v (g.loc.getD [])
+
+theorem containersLocList_eq : ∀ (xs : List Val) (loc : Loc) (n : Nat),
+    containersLocList xs loc n = (xs.zipIdx n).flatMap (fun xi => containersLoc xi.1 (loc ++ [.idx xi.2]))
+  | [], _, _ => rfl
+  | x :: xs, loc, n => by
+    simp only [containersLocList, List.zipIdx_cons, List.flatMap_cons, containersLocList_eq xs loc (n + 1)]
+
+theorem containersLocKVs_eq : ∀ (kvs : List (String × Val)) (loc : Loc),
+    containersLocKVs kvs loc = kvs.flatMap (fun kv => containersLoc kv.2 (loc ++ [.key kv.1]))
+  | [], _ => rfl
+  | (k, x) :: kvs, loc => by
+    simp only [containersLocKVs, List.flatMap_cons, containersLocKVs_eq kvs loc]
+
+theorem containersLoc_unfold (v : Val) (loc : Loc) (hc : v.isContainer = true) :
+    containersLoc v loc = (v, loc) :: (membersG v loc).flatMap below := by
+  cases v with
+  | obj kvs =>
+    simp only [containersLoc, containersLocKVs_eq, membersG, List.flatMap_map, below]
+    rfl
+  | arr xs =>
+    simp only [containersLoc, containersLocList_eq, membersG, List.flatMap_map, below]
+    rfl
+  | _ => simp [Val.isContainer] at hc
+
+theorem below_nonContainer (g : GoVal) (h : g.v.isContainer = false) : below g = [] := by
+  obtain ⟨v, l⟩ := g
+  cases v <;> first | rfl | simp [Val.isContainer] at h
+
+theorem flatMap_below_filter : ∀ (ms : List GoVal),
+    (ms.filter (fun g => g.v.isContainer)).flatMap below = ms.flatMap below
+  | [] => rfl
+  | g :: ms => by
+    cases h : g.v.isContainer with
+    | true => simp only [List.filter_cons, h, if_true, List.flatMap_cons, flatMap_below_filter ms]
+    | false =>
+      simp only [List.filter_cons, h, Bool.false_eq_true, if_false, List.flatMap_cons, flatMap_below_filter ms,
+        below_nonContainer g h, List.nil_append]
+
+theorem membersG_wf (v : Val) (loc : Loc) (hw : v.wf = true) : ∀ g ∈ membersG v loc, g.v.wf = true := by
+  intro g hg
+  cases v with
+  | obj kvs =>
+    simp only [membersG, List.mem_map] at hg
+    obtain ⟨kv, hkv, rfl⟩ := hg
+    exact wfKVs_mem (wf_obj hw).2 kv hkv
+  | arr xs =>
+    simp only [membersG, List.mem_map] at hg
+    obtain ⟨xi, hxi, rfl⟩ := hg
+    have := List.mem_zipIdx_iff_getElem?.mp hxi
+    exact wf_elems hw _ (List.mem_of_getElem? this)
+  | _ => simp [membersG] at hg
+
+mutual
+/-- number of values in a document -/
+def valSize : Val → Nat
+  | .arr xs => 1 + valSizeList xs
+  | .obj kvs => 1 + valSizeKVs kvs
+  | _ => 1
+def valSizeList : List Val → Nat
+  | [] => 0
+  | x :: xs => valSize x + valSizeList xs
+def valSizeKVs : List (String × Val) → Nat
+  | [] => 0
+  | (_, x) :: xs => valSize x + valSizeKVs xs
+end
+
+mutual
+theorem containersLoc_length_le : ∀ (v : Val) (loc : Loc), (containersLoc v loc).length ≤ valSize v
+  | .arr xs, loc => by
+    simp only [containersLoc, List.length_cons, valSize]
+    have := containersLocList_length_le xs loc 0
+    omega
+  | .obj kvs, loc => by
+    simp only [containersLoc, List.length_cons, valSize]
+    have := containersLocKVs_length_le kvs loc
+    omega
+  | .null, _ | .bool _, _ | .num _, _ | .jnum _, _ | .str _, _ | .opq _ _, _ => by simp [containersLoc, valSize]
+theorem containersLocList_length_le : ∀ (xs : List Val) (loc : Loc) (n : Nat),
+    (containersLocList xs loc n).length ≤ valSizeList xs
+  | [], _, _ => by simp [containersLocList, valSizeList]
+  | x :: xs, loc, n => by
+    simp only [containersLocList, List.length_append, valSizeList]
+    have h1 := containersLoc_length_le x (loc ++ [.idx n])
+    have h2 := containersLocList_length_le xs loc (n + 1)
+    omega
+theorem containersLocKVs_length_le : ∀ (kvs : List (String × Val)) (loc : Loc),
+    (containersLocKVs kvs loc).length ≤ valSizeKVs kvs
+  | [], _ => by simp [containersLocKVs, valSizeKVs]
+  | (k, x) :: kvs, loc => by
+    simp only [containersLocKVs, List.length_append, valSizeKVs]
+    have h1 := containersLoc_length_le x (loc ++ [.key k])
+    have h2 := containersLocKVs_length_le kvs loc
+    omega
+end
+
+
+
+theorem downFrom_len (n : Nat) : downFrom ((n : Int) - 1) = (List.range n).reverse.map (fun (i : Nat) => (i : Int)) := by
+  have : ((n : Int) - 1 + 1).toNat = n := by omega
+  simp only [downFrom, this]
+
+/-- the loop `for index := len-1; index >= 0; index-- { node := items[index]; if container { push } }` -/
+theorem pushDown_rev (get : Int → M GoVal) (body : Int → List GoVal → M (List GoVal))
+    (hbody : ∀ ix tn, body ix tn = get ix >>= fun node => .ok (if node.v.isContainer then tn ++ [node] else tn)) :
+    ∀ (ritems : List GoVal) (S : List GoVal),
+      (∀ (i : Nat) (hi : i < ritems.reverse.length), get i = .ok ritems.reverse[i]) →
+      forRange ((List.range ritems.length).reverse.map (fun (i : Nat) => (i : Int))) S body =
+        .ok (S ++ ritems.filter (fun g => g.v.isContainer))
+  | [], S, _ => by simp [forRange]
+  | r :: rs, S, h => by
+    have hlast : get (rs.length : Int) = .ok r := by
+      have := h rs.length (by simp)
+      simpa using this
+    have hinit : ∀ (i : Nat) (hi : i < rs.reverse.length), get i = .ok rs.reverse[i] := by
+      intro i hi
+      have hi' : i < (r :: rs).reverse.length := by simp at hi ⊢; omega
+      rw [h i hi']
+      congr 1
+      simp only [List.reverse_cons]
+      rw [List.getElem_append_left]
+    simp only [List.length_cons, List.range_succ, List.reverse_append, List.reverse_cons, List.reverse_nil,
+      List.nil_append, List.cons_append, List.map_cons, forRange, hbody, hlast]
+    show forRange _ (if r.v.isContainer = true then S ++ [r] else S) body = _
+    rw [pushDown_rev get body hbody rs _ hinit]
+    cases hc : r.v.isContainer <;> simp [List.filter_cons, hc]
+
+theorem pushDown (get : Int → M GoVal) (body : Int → List GoVal → M (List GoVal))
+    (hbody : ∀ ix tn, body ix tn = get ix >>= fun node => .ok (if node.v.isContainer then tn ++ [node] else tn))
+    (items : List GoVal) (S : List GoVal) (h : ∀ (i : Nat) (hi : i < items.length), get i = .ok items[i]) :
+    forRange (downFrom (goLen items - 1)) S body = .ok (S ++ (items.filter (fun g => g.v.isContainer)).reverse) := by
+  have := pushDown_rev get body hbody items.reverse S (by simpa using h)
+  rw [goLen, downFrom_len]
+  simpa [List.filter_reverse] using this
+
+
+
+/-- `pushDown` with the index list and the body left to unification -/
+theorem pushDown' (get : Int → M GoVal) {body : Int → List GoVal → M (List GoVal)} (items : List GoVal)
+    (S : List GoVal) {L : List Int}
+    (h : ∀ (i : Nat) (hi : i < items.length), get i = .ok items[i])
+    (hbody : ∀ ix tn, body ix tn = get ix >>= fun node => .ok (if node.v.isContainer then tn ++ [node] else tn))
+    (hL : L = downFrom (goLen items - 1)) :
+    forRange L S body = .ok (S ++ (items.filter (fun g => g.v.isContainer)).reverse) := by
+  subst hL
+  exact pushDown get body hbody items S h
+
+/-- the body of the stack loop, as the generator writes it -/
+def descBody (i : RecursiveRecv) (root : Val) :
+    St × Nat × Option RtErr × List GoVal → M (St × Nat × Option RtErr × List GoVal) :=
+  fun (st, deepestTextLen, deepestError, targetNodes) => do
+      let currentNode ← sliceIndex targetNodes (goLen targetNodes - 1)
+      let targetNodes ← sliceTo targetNodes (goLen targetNodes - 1)
+      let (st, deepestTextLen, deepestError, targetNodes) ← (match typeSwitch currentNode with
+        | .map typedNodes => do
+          let (st, deepestTextLen, deepestError) ← (if i.nextMapRequired then do
+              let (st, err) ← callNext i.basic.next root (GoVal.ofMap typedNodes) st
+              let (deepestTextLen, deepestError) ← (match err with
+                | none => pure (deepestTextLen, deepestError)
+                | some err => do
+                  let (deepestTextLen, deepestError) ← (if goLen st.out == 0 then do
+                      let (deepestTextLen, deepestError) := addDeepestError err deepestTextLen deepestError
+                      pure (deepestTextLen, deepestError)
+                    else pure (deepestTextLen, deepestError))
+                  pure (deepestTextLen, deepestError))
+              pure (st, deepestTextLen, deepestError)
+            else pure (st, deepestTextLen, deepestError))
+          let sortKeys := getSortedKeys typedNodes
+          let targetNodes ← forRange (downFrom (goLen typedNodes.kvs - 1)) targetNodes (fun index targetNodes => do
+            let t_1 ← sliceIndex sortKeys index
+            let node := mapGet typedNodes t_1
+            let targetNodes ← (match typeSwitch node with
+              | .map _ | .list _ => do
+                let targetNodes := targetNodes ++ [node]
+                pure targetNodes
+              | .other => pure targetNodes)
+            pure targetNodes)
+          pure (st, deepestTextLen, deepestError, targetNodes)
+        | .list typedNodes => do
+          let (st, deepestTextLen, deepestError) ← (if i.nextListRequired then do
+              let (st, err) ← callNext i.basic.next root (GoVal.ofList typedNodes) st
+              let (deepestTextLen, deepestError) ← (match err with
+                | none => pure (deepestTextLen, deepestError)
+                | some err => do
+                  let (deepestTextLen, deepestError) ← (if goLen st.out == 0 then do
+                      let (deepestTextLen, deepestError) := addDeepestError err deepestTextLen deepestError
+                      pure (deepestTextLen, deepestError)
+                    else pure (deepestTextLen, deepestError))
+                  pure (deepestTextLen, deepestError))
+              pure (st, deepestTextLen, deepestError)
+            else pure (st, deepestTextLen, deepestError))
+          let targetNodes ← forRange (downFrom (goLen typedNodes.xs - 1)) targetNodes (fun index targetNodes => do
+            let node ← listIndex typedNodes index
+            let targetNodes ← (match typeSwitch node with
+              | .map _ | .list _ => do
+                let targetNodes := targetNodes ++ [node]
+                pure targetNodes
+              | .other => pure targetNodes)
+            pure targetNodes)
+          pure (st, deepestTextLen, deepestError, targetNodes)
+        | .other => pure (st, deepestTextLen, deepestError, targetNodes))
+      pure (st, deepestTextLen, deepestError, targetNodes)
+
+theorem pop_top (S : List GoVal) (top : GoVal) :
+    sliceIndex (S ++ [top]) (goLen (S ++ [top]) - 1) = .ok top := by
+  have h1 : goLen (S ++ [top]) - 1 = (S.length : Int) := by simp [goLen]
+  rw [h1]
+  exact sliceIndex_append_mid S top []
+
+theorem pop_rest (S : List GoVal) (top : GoVal) :
+    sliceTo (S ++ [top]) (goLen (S ++ [top]) - 1) = .ok S := by
+  have h1 : goLen (S ++ [top]) - 1 = (S.length : Int) := by simp [goLen]
+  rw [h1]
+  have h2 : ¬ ((S.length : Int) < 0) := by omega
+  have h3 : ¬ ((S.length : Int) > ((S ++ [top]).length : Int)) := by
+    simp only [List.length_append, List.length_cons, List.length_nil]; omega
+  simp only [sliceTo, h2, h3, decide_false, Bool.or_self, Bool.false_eq_true, if_false, Int.toNat_natCast,
+    List.take_left']
+
+/-- the container test of the inner loops -/
+theorem push_if (node : GoVal) (tn : List GoVal) :
+    (match typeSwitch node with
+      | .map _ | .list _ => (pure (tn ++ [node]) : M (List GoVal))
+      | .other => pure tn) = .ok (if node.v.isContainer then tn ++ [node] else tn) := by
+  obtain ⟨v, l⟩ := node
+  cases v <;> rfl
+
+/-- what one iteration does with the container on top of the stack: hand it to `next` when its
+    kind is required, record the error, push the containers among its members in reverse -/
+def descStep (i : RecursiveRecv) (root : Val) (top : GoVal) (st : St) (dl : Nat) (de : Option RtErr) : M Acc :=
+  stepAcc (if (if isObj top.v then i.nextMapRequired else i.nextListRequired)
+    then callNext i.basic.next root ⟨top.v, some (top.loc.getD [])⟩ st else .ok (st, none)) dl de
+
+theorem descBody_eq (i : RecursiveRecv) (root : Val) (S : List GoVal) (top : GoVal)
+    (hc : top.v.isContainer = true) (hw : top.v.wf = true) (st : St) (dl : Nat) (de : Option RtErr) :
+    descBody i root (st, dl, de, S ++ [top]) =
+      (do
+        let (st', dl', de') ← descStep i root top st dl de
+        pure (st', dl', de',
+          S ++ ((membersG top.v (top.loc.getD [])).filter (fun g => g.v.isContainer)).reverse)) := by
+  obtain ⟨v, ol⟩ := top
+  simp only [descBody, pop_top, pop_rest, ok_bind]
+  cases v with
+  | obj kvs =>
+    have hts : typeSwitch ⟨.obj kvs, ol⟩ = .map ⟨kvs, ol.getD []⟩ := rfl
+    have hsort : sortKV kvs = kvs := sortKV_of_wf hw
+    have hnd : (kvs.map (·.1)).Nodup := keysNodup_of_wf (v := .obj kvs) hw
+    rw [hts]
+    simp only []
+    rw [pushDown' (fun ix => sliceIndex (getSortedKeys ⟨kvs, ol.getD []⟩) ix >>= fun t => .ok (mapGet ⟨kvs, ol.getD []⟩ t))
+      (membersG (.obj kvs) (ol.getD [])) S]
+    · simp only [descStep, isObj, if_true, GoVal.ofMap]
+      cases i.nextMapRequired with
+      | false => rfl
+      | true =>
+        simp only [if_true]
+        cases callNext i.basic.next root ⟨.obj kvs, some (ol.getD [])⟩ st with
+        | error p => rfl
+        | ok r =>
+          obtain ⟨st', e⟩ := r
+          cases e with
+          | none => rfl
+          | some err =>
+            obtain ⟨out, lg, wr⟩ := st'
+            cases out <;> rfl
+    · intro n hn
+      have hn' : n < kvs.length := by simpa [membersG] using hn
+      have hneg : ¬ ((n : Int) < 0) := by omega
+      have hmem : kvs[n] ∈ kvs := List.getElem_mem hn'
+      simp only [sliceIndex, getSortedKeys, hsort, hneg, if_false, Int.toNat_natCast, List.getElem?_map,
+        List.getElem?_eq_getElem hn', Option.map_some, ok_bind, mapGet, lookup_of_mem kvs hnd _ hmem, membersG,
+        List.getElem_map, Option.getD_some]
+    · intro ix tn
+      cases sliceIndex (getSortedKeys ⟨kvs, ol.getD []⟩) ix with
+      | error p => rfl
+      | ok t => exact push_if _ tn
+    · simp [goLen, membersG]
+  | arr xs =>
+    have hts : typeSwitch ⟨.arr xs, ol⟩ = .list ⟨xs, ol.getD []⟩ := rfl
+    rw [hts]
+    simp only []
+    rw [pushDown' (fun ix => listIndex ⟨xs, ol.getD []⟩ ix) (membersG (.arr xs) (ol.getD [])) S]
+    · simp only [descStep, isObj, Bool.false_eq_true, if_false, GoVal.ofList]
+      cases i.nextListRequired with
+      | false => rfl
+      | true =>
+        simp only [if_true]
+        cases callNext i.basic.next root ⟨.arr xs, some (ol.getD [])⟩ st with
+        | error p => rfl
+        | ok r =>
+          obtain ⟨st', e⟩ := r
+          cases e with
+          | none => rfl
+          | some err =>
+            obtain ⟨out, lg, wr⟩ := st'
+            cases out <;> rfl
+    · intro n hn
+      have hn' : n < xs.length := by simpa [membersG] using hn
+      have hneg : ¬ ((n : Int) < 0) := by omega
+      simp only [listIndex, hneg, if_false, Int.toNat_natCast, List.getElem?_eq_getElem hn', membersG,
+        List.getElem_map, List.getElem_zipIdx, Nat.zero_add]
+    · intro ix tn
+      cases listIndex ⟨xs, ol.getD []⟩ ix with
+      | error p => rfl
+      | ok t => exact push_if _ tn
+    · simp [goLen, membersG]
+  | _ => simp [Val.isContainer] at hc
+
+
+
+/-- the containers still to be visited, in the order the stack loop will visit them -/
+def todo (S : List GoVal) : List (Val × Loc) := S.reverse.flatMap below
+
+/-- which containers are handed to `next` -/
+def required (i : RecursiveRecv) (cl : Val × Loc) : Bool := if isObj cl.1 then i.nextMapRequired else i.nextListRequired
+
+/-- the call the loop makes for a container -/
+def descCall (i : RecursiveRecv) (root : Val) (cl : Val × Loc) (st : St) : M (St × Option RtErr) :=
+  callNext i.basic.next root ⟨cl.1, some cl.2⟩ st
+
+theorem todo_push (S : List GoVal) (top : GoVal) (hc : top.v.isContainer = true) :
+    todo (S ++ [top]) = (top.v, top.loc.getD []) ::
+      todo (S ++ ((membersG top.v (top.loc.getD [])).filter (fun g => g.v.isContainer)).reverse) := by
+  simp only [todo, List.reverse_append, List.reverse_cons, List.reverse_nil, List.nil_append, List.cons_append,
+    List.flatMap_cons, List.reverse_reverse, List.flatMap_append, flatMap_below_filter]
+  rw [below, containersLoc_unfold _ _ hc]
+  rfl
+
+theorem descLoop (i : RecursiveRecv) (root : Val)
+    (cond : St × Nat × Option RtErr × List GoVal → Bool)
+    (hcond : ∀ st dl de S, cond (st, dl, de, S) = decide (goLen S > 0)) :
+    ∀ (fuel : Nat) (S : List GoVal) (st : St) (dl : Nat) (de : Option RtErr),
+      (∀ g ∈ S, g.v.isContainer = true ∧ g.v.wf = true) → (todo S).length ≤ fuel →
+      whileLoop fuel (st, dl, de, S) cond (descBody i root) =
+        (do
+          let (st', dl', de') ← loopAcc (descCall i root) ((todo S).filter (required i)) (st, dl, de)
+          pure (st', dl', de', [])) := by
+  intro fuel
+  induction fuel with
+  | zero =>
+    intro S st dl de hinv hlen
+    rcases List.eq_nil_or_concat S with rfl | ⟨S', top, hS⟩
+    · simp only [whileLoop, hcond, goLen, List.length_nil]
+      rfl
+    · rw [List.concat_eq_append] at hS
+      subst hS
+      rw [todo_push S' top (hinv top (by simp)).1] at hlen
+      simp at hlen
+  | succ f ih =>
+    intro S st dl de hinv hlen
+    rcases List.eq_nil_or_concat S with rfl | ⟨S', top, hS⟩
+    · simp only [whileLoop, hcond, goLen, List.length_nil]
+      rfl
+    · rw [List.concat_eq_append] at hS
+      subst hS
+      have htop := hinv top (by simp)
+      have hpos : decide (goLen (S' ++ [top]) > 0) = true := by
+        simp only [goLen, List.length_append, List.length_cons, List.length_nil, decide_eq_true_eq]; omega
+      rw [todo_push S' top htop.1] at hlen ⊢
+      simp only [List.length_cons] at hlen
+      have hinv' : ∀ g ∈ S' ++ ((membersG top.v (top.loc.getD [])).filter (fun g => g.v.isContainer)).reverse,
+          g.v.isContainer = true ∧ g.v.wf = true := by
+        intro g hg
+        rcases List.mem_append.mp hg with h | h
+        · exact hinv g (List.mem_append_left _ h)
+        · have h' := List.mem_filter.mp (List.mem_reverse.mp h)
+          exact ⟨h'.2, membersG_wf _ _ htop.2 g h'.1⟩
+      simp only [whileLoop, hcond, hpos, if_true, descBody_eq i root S' top htop.1 htop.2]
+      simp only [descStep, List.filter_cons, required]
+      rcases Bool.eq_false_or_eq_true (if isObj top.v then i.nextMapRequired else i.nextListRequired) with hreq | hreq
+      · simp only [hreq, if_true, loopAcc, descCall]
+        cases stepAcc (callNext i.basic.next root ⟨top.v, some (top.loc.getD [])⟩ st) dl de with
+        | error p => rfl
+        | ok acc =>
+          obtain ⟨st', dl', de'⟩ := acc
+          exact ih _ st' dl' de' hinv' (by omega)
+      · simp only [hreq, Bool.false_eq_true, if_false, stepAcc_skip, ok_bind]
+        exact ih _ st dl de hinv' (by omega)
+
+
+
+theorem todo_single (g : GoVal) : todo [g] = containersLoc g.v (g.loc.getD []) := by
+  simp [todo, below]
+
+/-- `descLoop_eq_preorder`: on a canonical document, with fuel at least the number of values in
+    it, the explicit stack of `syntaxRecursiveChildIdentifier.retrieve` hands to `next` exactly the
+    containers of the pre-order enumeration `containersLoc` whose kind `next` asked for, each with
+    its location, in that order, with the deepest-error bookkeeping of a fan-out loop — for EVERY
+    `next` (receiver `r` arbitrary). -/
+theorem descLoop_eq_preorder (r : RecursiveRecv) (root cur : Val) (aloc : Option Loc) (st : St)
+    (hc : cur.isContainer = true) (hw : cur.wf = true) (fuel : Nat) (hf : valSize cur ≤ fuel) :
+    syntaxRecursiveChildIdentifier_retrieve fuel r root ⟨cur, aloc⟩ st =
+      (do
+        let acc ← loopAcc (descCall r root) ((containersLoc cur (aloc.getD [])).filter (required r)) (st, 0, none)
+        .ok (endGroup r.basic.errorRuntime acc)) := by
+  have hlen : (todo [⟨cur, aloc⟩]).length ≤ fuel := by
+    rw [todo_single]
+    exact Nat.le_trans (containersLoc_length_le cur _) hf
+  have hinv : ∀ g ∈ [(⟨cur, aloc⟩ : GoVal)], g.v.isContainer = true ∧ g.v.wf = true := by
+    intro g hg
+    rw [List.mem_singleton.mp hg]
+    exact ⟨hc, hw⟩
+  have hset : sliceSet (makeGoVals 1) 0 (⟨cur, aloc⟩ : GoVal) = .ok [⟨cur, aloc⟩] := rfl
+  have hloop := descLoop r root (fun (st, deepestTextLen, deepestError, targetNodes) => decide (goLen targetNodes > 0))
+    (fun _ _ _ _ => rfl) fuel [⟨cur, aloc⟩] st 0 none hinv hlen
+  rw [todo_single] at hloop
+  have hmain : (do
+      let deepestTextLen : Nat := 0
+      let deepestError : Option RtErr := none
+      let targetNodes := makeGoVals 1
+      let targetNodes ← sliceSet targetNodes 0 (⟨cur, aloc⟩ : GoVal)
+      let (st, deepestTextLen, deepestError, targetNodes) ← whileLoop fuel (st, deepestTextLen, deepestError, targetNodes)
+        (fun (st, deepestTextLen, deepestError, targetNodes) => decide (goLen targetNodes > 0)) (descBody r root)
+      if goLen st.out > 0 then
+        .ok (st, none)
+      else do
+        if deepestError.isNone then
+          .ok (st, some (RtErr.member r.basic.errorRuntime))
+        else do
+          .ok (st, deepestError) : M (St × Option RtErr)) =
+      (do
+        let acc ← loopAcc (descCall r root) ((containersLoc cur (aloc.getD [])).filter (required r)) (st, 0, none)
+        .ok (endGroup r.basic.errorRuntime acc)) := by
+    simp only [hset, ok_bind, hloop]
+    simp only [bind, Except.bind]
+    cases loopAcc (descCall r root) _ (st, 0, none) with
+    | error p => rfl
+    | ok acc =>
+      obtain ⟨st', dl, de⟩ := acc
+      exact finish_eq r.basic.errorRuntime st' dl de
+  rw [← hmain]
+  cases cur with
+  | obj kvs => rfl
+  | arr xs => rfl
+  | _ => simp [Val.isContainer] at hc
+
+
+
+def descRecv (env : Env) (i : Info) (mr lr : Bool) (rest : List N) : RecursiveRecv :=
+  { basic := basicRecv env i rest, nextMapRequired := mr, nextListRequired := lr }
+
+theorem desc_eq (env : Env) (i : Info) (mr lr : Bool) (rest : List N) (hrest : rest ≠ []) (prev : Info)
+    (root cur : Val) (aloc : Option Loc) (st : St) (hw : cur.wf = true) (fuel : Nat) (hf : valSize cur ≤ fuel) :
+    retrieve env (.desc i mr lr :: rest) prev root cur aloc st =
+      syntaxRecursiveChildIdentifier_retrieve fuel (descRecv env i mr lr rest) root ⟨cur, aloc⟩ st := by
+  cases hc : cur.isContainer with
+  | false =>
+    simp only [retrieve, hc, Bool.false_eq_true, if_false]
+    cases cur <;> first | rfl | simp [Val.isContainer] at hc
+  | true =>
+    rw [descLoop_eq_preorder _ root cur aloc st hc hw fuel hf]
+    simp only [retrieve, hc, if_true]
+    cases rest with
+    | nil => exact absurd rfl hrest
+    | cons n rest' => rfl
+
+/-- a `next` that only records what it is handed (value and location), and never fails -/
+def logNext : Next := fun _ v st => .ok (st.push (.acc v.v v.loc), none)
+
+theorem loopAcc_log (i : RecursiveRecv) (root : Val) (hn : i.basic.next = some logNext) :
+    ∀ (cls : List (Val × Loc)) (st : St) (dl : Nat) (de : Option RtErr),
+      loopAcc (descCall i root) cls (st, dl, de) =
+        .ok ({ st with out := st.out ++ cls.map (fun cl => Res.acc cl.1 (some cl.2)) }, dl, de)
+  | [], st, dl, de => by simp [loopAcc]
+  | cl :: cls, st, dl, de => by
+    simp only [loopAcc, descCall, hn, callNext, logNext, stepAcc_skip, ok_bind]
+    rw [loopAcc_log i root hn cls]
+    simp [St.push]
+
+/-- the sequence of (container, location) pairs the stack loop hands to `next`, made explicit with
+    a recording `next`: the buffer grows by exactly the filtered pre-order enumeration -/
+theorem descLoop_visits (r : RecursiveRecv) (hn : r.basic.next = some logNext) (root cur : Val) (aloc : Option Loc)
+    (st : St) (hc : cur.isContainer = true) (hw : cur.wf = true) (fuel : Nat) (hf : valSize cur ≤ fuel) :
+    ∃ e, syntaxRecursiveChildIdentifier_retrieve fuel r root ⟨cur, aloc⟩ st =
+      .ok ({ st with out := st.out ++
+        ((containersLoc cur (aloc.getD [])).filter (required r)).map (fun cl => Res.acc cl.1 (some cl.2)) }, e) := by
+  rw [descLoop_eq_preorder r root cur aloc st hc hw fuel hf, loopAcc_log r root hn]
+  exact ⟨_, rfl⟩
+
 
 end NodeTie
 end JPV
